@@ -55,6 +55,11 @@ class FakeLock(object):
         if ct:
             ct.blocked = None
         self.owner, self.depth = me, 1
+        sim = _CTX.get('sim')
+        if sim is not None and ct is not None and getattr(ct, 'name', None) == 'to' and \
+                self is getattr(getattr(sim, 'comp', None), '_to_lock', None):
+            # the limit watcher starts a pass: it reads what was registered / reported so far
+            sim.to_pass_starts.append(sim.steps)
         return True
 
     def release(self):
@@ -246,6 +251,7 @@ class _KillOS(object):
                     p.child_alive = False
                 if p.returncode is None:
                     p.killed = True
+                    p.kill_step = self.sim.steps
                     p.returncode = -int(sig)
                 return
         raise ProcessLookupError(3, 'No such process')
@@ -457,6 +463,8 @@ class ExecSim(object):
         self.cancel_of  = {}     # cancel thread name -> uids
         self.started_clean = set()   # uids whose start-up report was handled before any time passed
         self.must_cancel = {}    # uid -> phase at which the request was completely handled
+        self.to_pass_starts = [] # steps at which the limit watcher began a pass
+        self.report_step = {}    # uid -> step at which its start-up report was handled
         self.limit_from = {}     # uid -> [virtual time no earlier than the start of its current limit, limit]
         self.overdue  = []       # (uid, seconds over its limit) still running when everything had settled
         self.ticked   = 0.0
@@ -655,6 +663,7 @@ class ExecSim(object):
             self._resume(name)
         if ct.done and ct.exc is None and self.ticked == 0:
             self.started_clean.add(uid)
+            self.report_step[uid] = self.steps
         if ct.done and ct.exc is None and uid in self.limit_from:
             # the report ends the start-up limit; a run-time limit, if any, starts now
             lim = self.tasks[uid].get('timeout')
@@ -872,6 +881,17 @@ class ExecSim(object):
                     limit = spec.get('timeout') if uid in self.started_clean else \
                         (spec.get('timeout') or spec.get('startup_timeout'))
                     allowed = uid in self.cancel_req or (limit and self.ticked > 0)
+                    if not allowed and uid in self.started_clean and spec.get('startup_timeout') \
+                            and self.ticked > 0:
+                        # the limit watcher may have been in the middle of a pass - its table read
+                        # before the report arrived - when the clock moved: that pass still acts on
+                        # the start-up limit.  Only a pass which BEGAN after the report must not.
+                        r = self.report_step.get(uid, 0)
+                        k = getattr(proc, 'kill_step', None)
+                        if k is not None and not any(r < s <= k for s in self.to_pass_starts):
+                            allowed = True
+                            self.labels_extra = getattr(self, 'labels_extra', set()) | \
+                                {'startup_limit_hit_by_a_pass_begun_before_the_report'}
                     if not allowed:
                         self.bad('C07', 'outcome_wrong:CANCELED_unrequested', uid)
                         if uid in self.started_clean:
